@@ -1066,7 +1066,7 @@ def inline_new_helpers(trees, ref, stats=None, rounds=3):
                     for a in n.names:
                         imports[(mod, a.asname or a.name)] = (n.module.split('.')[-1], a.name)
         if not helpers and not methods:
-            return
+            break
         changed = False
         for mod, tree in trees.items():
             for key, fn in functions_of(tree, mod):
@@ -1085,7 +1085,29 @@ def inline_new_helpers(trees, ref, stats=None, rounds=3):
                     fn.body = flatten_block(fn.body)
                     changed = True
         if not changed:
-            return
+            break
+    # what could not be inlined: the anchored function now delegates to code the reference knows nothing about
+    newnames = {}
+    for mod, tree in trees.items():
+        for n in tree.body:
+            if isinstance(n, ast.FunctionDef) and n.name not in known:
+                newnames[n.name] = n
+            elif isinstance(n, ast.ClassDef):
+                for b in n.body:
+                    if isinstance(b, ast.FunctionDef) and '%s.%s' % (n.name, b.name) not in known:
+                        newnames[b.name] = b
+    if newnames:
+        for mod, tree in trees.items():
+            for key, fn in functions_of(tree, mod):
+                if key.split(':', 1)[1] in known or True:
+                    op = sorted({(c.func.id if isinstance(c.func, ast.Name) else c.func.attr) for c in ast.walk(fn) if isinstance(c, ast.Call)
+                                 and ((isinstance(c.func, ast.Name) and c.func.id in newnames) or
+                                      (isinstance(c.func, ast.Attribute) and isinstance(c.func.value, ast.Name) and c.func.value.id == 'self' and c.func.attr in newnames))
+                                 and newnames[(c.func.id if isinstance(c.func, ast.Name) else c.func.attr)] is not fn})
+                    if op and key.split(':', 1)[1] in known:
+                        fn._opaque = op
+                        if stats is not None:
+                            stats.append((key, 'delegates to new helper(s) %s that could not be inlined' % op))
 
 
 def _inline_in(fn, lookup, key, stats):
